@@ -6,7 +6,7 @@ import ast
 from sa import flow
 from sa.model import AnalysisError, dotted, unparse
 from sa.rules import LEVEL_TEXT, rule
-from sa.rules.util import external_name, is_self_attr, iter_body_nodes, qual
+from sa.rules.util import external_name, is_self_attr, iter_body_nodes, pmatch, qual
 
 LEVEL_TEXT["C12"] = (
     "Decides structural necessary conditions of C12: every hash partition assignment receives the numeric cast dtype "
@@ -284,3 +284,56 @@ def names_in_text(t):
     import re as _re2
 
     return set(_re2.findall(r"[A-Za-z_]\w*", t))
+
+
+@rule(
+    "R12c",
+    ["C12", "C10"],
+    """THE HASHED KEY FRAME FOLLOWS THE ORDER OF THE KEYS, NOT OF THE FRAME: the partition of a row is the hash of its key values taken in
+    the order of the selected columns. Two frames shuffled (or merged) on the same key list co-locate equal keys only if both hash
+    them in KEY order - their own column orders differ. In `_select_columns_or_index(df, keys)` every comprehension that produces the
+    selected labels iterates the key list (the function's second parameter, possibly normalised to a list), never `df.columns`.""",
+)
+def r12c(ctx):
+    model = ctx.model
+    mod, fn = model.func("_shuffle", "_select_columns_or_index")
+    dfp, keys = fn.args.args[0].arg, fn.args.args[1].arg
+    comps = [x for x in ast.walk(fn) if isinstance(x, (ast.ListComp, ast.GeneratorExp))]
+    if not comps:
+        raise AnalysisError("anchor vanished: the label selection of _select_columns_or_index")
+    for i, comp in enumerate(comps):
+        it = ast.unparse(comp.generators[0].iter)
+        cid = f"_shuffle._select_columns_or_index:selection-order#{i}"
+        if it == keys:
+            ctx.ok(cid, mod.loc(comp), "labels are selected in key order")
+        elif f"{dfp}.columns" in it or it == dfp:
+            ctx.bad(cid, mod.loc(comp), f"`{unparse(comp)}` selects the key columns in the order of `{dfp}.columns`: the row hash then depends on the column order of the frame, so two frames partitioned on the same keys (both sides of a hash join, a frame and its already shuffled twin) send equal keys to different partitions")
+        else:
+            ctx.unclassified(cid, mod.loc(comp), f"selection iterates `{it}`")
+
+
+@rule(
+    "R12d",
+    ["C12"],
+    """EVERY KIND OF KEY IS HASHED AS A FRAME: a one-column frame and the Series of that column hash to different values
+    (hash_object_dispatch of a frame combines per-column hashes). AssignPartitioningIndex.operation normalises every key form to a
+    frame before hashing: a 1-d key (`index.ndim == 1`) and the index (`index_shuffle`) go through `.to_frame()`, labels through
+    `_select_columns_or_index`. Rows shuffled by `df.shuffle(df.k)` and by `df.shuffle("k")` must land in the same partitions -
+    a merge shuffles one side by label and the other by a key collection.""",
+)
+def r12d(ctx):
+    model = ctx.model
+    c = model.cls("AssignPartitioningIndex", "_shuffle")
+    fn = model.method(c, "operation", own=True).node
+    key = fn.args.args[1].arg
+    ok1 = False
+    for st in ast.walk(fn):
+        if isinstance(st, ast.Assign) and any(isinstance(t, ast.Name) and t.id == key for t in st.targets) and pmatch(f"{key}.to_frame()", st.value) is not None:
+            p = flow.point_of(fn, st)
+            if p is not None and any(pol and pmatch(f"{key}.ndim == 1", t) is not None for t, pol in flow.facts(p)):
+                ok1 = True
+    cid = "_shuffle.AssignPartitioningIndex.operation:series-key-as-frame"
+    if ok1:
+        ctx.ok(cid, c.module.loc(fn), "a 1-d key is turned into a frame before it is hashed")
+    else:
+        ctx.bad(cid, c.module.loc(fn), f"a 1-d key (`{key}.ndim == 1`) is no longer turned into a frame before hashing: a Series hashes differently from the one-column frame of the same values, so rows shuffled by a key collection and rows shuffled by the column label of the same key land in different partitions")
